@@ -47,6 +47,8 @@ SCHED_SAMPLES = [
     (True, ["a.example"], ["a.example"], 200, 300, 500, 70),
     (True, ["a.example"], ["a.example"], 0, 300, 0, 0),
     (True, [], ["a.example"], 1000, 300, 0, 0),
+    (True, ["a.example", "a.example"], ["a.example"], 1000, 300, 0, 0),                    # the same name configured twice is not a missing name
+    (True, ["a.example", "b.example", "a.example"], ["b.example", "a.example"], 1000, 300, 0, 0),
 ]
 
 
@@ -331,6 +333,16 @@ def check(ctx):
     reqs = rc.calls_to("acmed::acme_proto::request_certificate")
     ok, hit = unreachable_without(rc, [c.bb for c in reqs], removed_nodes=ok_sleep_polls)
     ctx.require(R4, ok and reqs, reqs[0].where() if reqs else "-", "request_certificate is reached only after the scheduled sleep completed", ["renew_certificate", "request-before-sleep"])
+    # the two timing values the scheduler uses are the configured ones: Certificate.renew_delay / random_early_renew come from the
+    # like-named configuration getters, and an included [global] table merges each into its own field (shared with C14.R2)
+    mel = prog.async_body("acmed::main_event_loop::MainEventLoop::new")
+    for i, st in agg_assigns(mel, CERT):
+        for fld, src in (("renew_delay", "acmed::config::Certificate::get_renew_delay"), ("random_early_renew", "acmed::config::Certificate::get_random_early_renew")):
+            sl = origins(mel, st["rv"]["ops"][st["rv"]["fields"].index(fld)])
+            others = [x.name for x in sl.calls if (x.name or "").startswith("acmed::config::Certificate::get_") and x.name != src]
+            ctx.require(R4, any(x.is_(src) for x in sl.calls) and not others, where(mel, i), "Certificate.%s <- %s" % (fld, src.rsplit("::", 1)[1]), ["MainEventLoop::new", "cert-field", fld])
+    from .c14 import merge_pairing
+    merge_pairing(ctx, R4, only=("renew_delay", "random_early_renew"))
 
 
 def is_zero_duration(body, op):
